@@ -5,6 +5,7 @@ import (
 	"context"
 	"encoding/json"
 	"fmt"
+	"io"
 	"math/rand"
 	"net"
 	"os"
@@ -233,7 +234,39 @@ func syncHandler(w *workerCtx, line []byte) (any, error) {
 		return nil, err
 	}
 	logb := &capBuf{}
+	fullOptsOf := func(daemon bool) fullOpts {
+		var e struct {
+			Opts map[string]bool `json:"opts"`
+		}
+		json.Unmarshal(s.Echo, &e)
+		o := e.Opts
+		return fullOpts{Dry: o["n"], Del: o["del"], Daemon: daemon,
+			List: wirekit.ListOpts{UID: o["o"], GID: o["g"], Links: o["l"], Devices: o["dv"], Specials: o["sp"], Checksum: o["c"]}}
+	}
+	runs := 0
 	runOnce := func() (string, string) {
+		runs++
+		var drec *wireRec
+		dwait := func() {}
+		dport := port
+		if s.Full && runs == 1 && (s.Arr == "pull" || s.Arr == "push") {
+			drec = newWireRec()
+			pp, pstop, pwait, perr := tapProxy(port, drec)
+			if perr != nil {
+				return "harness", perr.Error()
+			}
+			defer pstop()
+			dwait = pwait
+			dport = pp
+		}
+		port := dport
+		finish := func(rerr error) {
+			if drec != nil && rerr == nil {
+				dwait()
+				obs.Full = drec.analyseFull(s.Arr == "push", fullOptsOf(true))
+			}
+		}
+		_ = finish
 		srcArg := tree + "/"
 		if s.Form == "noslash" {
 			srcArg = tree
@@ -270,17 +303,12 @@ func syncHandler(w *workerCtx, line []byte) (any, error) {
 				obs.Wire = rec.analyse(wirekit.ListOpts{})
 			}
 			if rec != nil && rerr == nil && s.Full {
-				var e struct {
-					Opts map[string]bool `json:"opts"`
-				}
-				json.Unmarshal(s.Echo, &e)
-				o := e.Opts
-				obs.Full = rec.analyseFull(s.Arr == "libpush", fullOpts{Dry: o["n"], Del: o["del"],
-					List: wirekit.ListOpts{UID: o["o"], GID: o["g"], Links: o["l"], Devices: o["dv"], Specials: o["sp"], Checksum: o["c"]}})
+				obs.Full = rec.analyseFull(s.Arr == "libpush", fullOptsOf(false))
 			}
 		default:
 			return "harness", "unknown arrangement " + s.Arr
 		}
+		finish(rerr)
 		if rerr != nil {
 			return "err", rerr.Error()
 		}
@@ -340,6 +368,49 @@ func syncHandler(w *workerCtx, line []byte) (any, error) {
 	fstree.MakeWritable(ddir)
 	fstree.MakeWritable(sdir)
 	return obs, nil
+}
+
+// tapProxy forwards ONE connection to the daemon on targetPort through a pair of instrumented in-memory
+// pipes, so that both byte streams of a real daemon session are recorded with the transport's sequence
+// numbers (complete transcript for RsyncTrace.tla).
+func tapProxy(targetPort string, rec *wireRec) (port string, stop func(), wait func(), err error) {
+	ln, err := net.Listen("tcp", "127.0.0.1:0")
+	if err != nil {
+		return "", nil, nil, err
+	}
+	var wg sync.WaitGroup
+	wg.Add(2)
+	_, port, _ = net.SplitHostPort(ln.Addr().String())
+	go func() {
+		cc, err := ln.Accept()
+		if err != nil {
+			wg.Done()
+			wg.Done()
+			return
+		}
+		dc, err := net.Dial("tcp", "127.0.0.1:"+targetPort)
+		if err != nil {
+			cc.Close()
+			wg.Done()
+			wg.Done()
+			return
+		}
+		a, b := xport.Conn(-1, -1, rec.log)
+		rec.attach(a.Out, a.In)
+		go func() { io.Copy(a, cc); a.Out.CloseWrite(); wg.Done() }()              // client -> pipe "up" (ends when the client closes)
+		go func() { io.Copy(dc, b); dc.(*net.TCPConn).CloseWrite() }()             // pipe "up" -> daemon
+		go func() { io.Copy(b, dc); b.Out.CloseWrite(); wg.Done() }()              // daemon -> pipe "down" (ends when the daemon closes)
+		go func() { io.Copy(cc, a); cc.(*net.TCPConn).CloseWrite(); cc.Close() }() // pipe "down" -> client
+	}()
+	wait = func() { // both ends have closed: every byte of the session has passed the tap
+		done := make(chan struct{})
+		go func() { wg.Wait(); close(done) }()
+		select {
+		case <-done:
+		case <-idleAfter(3 * time.Second):
+		}
+	}
+	return port, func() { ln.Close() }, wait, nil
 }
 
 func runCmd(logw *capBuf, args []string) error {
